@@ -7,5 +7,7 @@ mod c08;
 mod c09;
 mod c11;
 mod c12;
+mod c14;
+pub mod xsched;
 pub mod world;
 pub mod io;
